@@ -179,8 +179,13 @@ func (mp *MintPayload) verifySignatures(signatures []*AuthorizerSignature, state
 		}
 
 		ok, err := signatureScheme.Verify(v.Signature, toSign)
-		if !ok || err != nil {
+		if err != nil {
 			return errors.Wrap(err, "failed to verify signature")
+		}
+		if !ok {
+			// errors.Wrap(nil, ...) is nil: a well-formed but wrong
+			// signature must be reported explicitly
+			return errors.Errorf("failed to verify signature of authorizer %s", authorizerID)
 		}
 	}
 
